@@ -3,14 +3,20 @@
 use crate::engine::SubCheck;
 
 pub mod common;
+pub mod c01;
 pub mod c02;
 pub mod c03;
 pub mod c04;
+pub mod c06;
 pub mod c07;
 pub mod c08;
 pub mod c09;
 pub mod c14;
 pub mod c16;
+pub mod c17;
+pub mod c18;
+pub mod c19;
+pub mod wellformed;
 pub mod c15;
 
 pub struct Property {
@@ -21,17 +27,22 @@ pub struct Property {
 
 pub fn property(id: &str) -> Option<Property> {
     match id {
+        "C01" => Some(c01::property()),
         "C02" => Some(c02::property()),
         "C03" => Some(c03::property()),
         "C04" => Some(c04::property()),
+        "C06" => Some(c06::property()),
         "C07" => Some(c07::property()),
         "C08" => Some(c08::property()),
         "C09" => Some(c09::property()),
         "C14" => Some(c14::property()),
         "C16" => Some(c16::property()),
+        "C17" => Some(c17::property()),
+        "C18" => Some(c18::property()),
+        "C19" => Some(c19::property()),
         "C15" => Some(c15::property()),
         _ => None,
     }
 }
 
-pub const ALL: &[&str] = &["C02", "C03", "C04", "C07", "C08", "C09", "C14", "C15", "C16"];
+pub const ALL: &[&str] = &["C01", "C02", "C03", "C04", "C06", "C07", "C08", "C09", "C14", "C15", "C16", "C17", "C18", "C19"];
